@@ -364,6 +364,17 @@ def rule_child(ctx):
         ok = isinstance(a1, Cls) and a1.ci is parts.get(want)
         ctx.check(ok, "C13.CHILD", ci.short, f"children checked against {want}", f"children of <{tag}> are checked against {show(a1) if a1 is not None else None}, the protocol requires <{want}>", ci=ci, text=f"{tag}:child-kind", witness=f"<{tag}><{lower_first(a1.ci.name) if isinstance(a1, Cls) else '?'}/></{tag}>")
     ctx.floor("C13.CHILD", "vector message classes", n, 14)
+    # the kind test is an isinstance test: it tells the kinds apart only while no element class derives from another
+    # (an element of the derived kind is an instance of the base kind and passes wherever the base kind is required)
+    bad = False
+    for wtag, w in sorted(parts.items()):
+        for xtag, x in sorted(parts.items()):
+            if x is not w and w in x.mro:
+                users = sorted(t for t, k in T.CHILD_KIND.items() if k == wtag)
+                ctx.violated("C13.CHILD", w.short, f"element class {x.name} derives from {w.name}: a <{xtag}> child passes the kind test of {users or 'every vector requiring ' + wtag} although the protocol requires <{wtag}> there", ci=x, text=f"kind-subsumed:{xtag}<{wtag}", witness=f"<{users[0] if users else '?'}><{xtag} .../></{users[0] if users else '?'}>")
+                bad = True
+    if not bad:
+        ctx.holds("C13.CHILD", "element classes", f"no element class derives from another ({len(parts)} classes): isinstance tells the kinds apart")
 
 
 def rule_unknown(ctx):
